@@ -903,7 +903,9 @@ func runGoEntryPoints(c GoCase, judge func(core_domain.CodeContainer) string) st
 		cli.WriteTree(dir, map[string]string{c.File.Path: c.File.Code})
 		ast_go.VerifResetAstGo()
 		var res3 core_domain.CodeContainer
-		if p := call(func() { res3 = ast_go.NewCocagoParser().ProcessFile(filepath.Join(dir, filepath.FromSlash(c.File.Path))) }); p != "" {
+		if p := call(func() {
+			res3 = ast_go.NewCocagoParser().ProcessFile(filepath.Join(dir, filepath.FromSlash(c.File.Path)))
+		}); p != "" {
 			return "CocagoParser.ProcessFile panicked on a file go/parser accepts: " + p
 		}
 		if msg := judge(res3); msg != "" {
